@@ -5,6 +5,7 @@ package table
 import (
 	"bytes"
 
+	"github.com/grafana/carbon-relay-ng/rewriter"
 	"github.com/grafana/carbon-relay-ng/stats"
 	m20 "github.com/metrics20/go-metrics20/carbon20"
 )
@@ -70,6 +71,51 @@ func VerifC01Table() {
 			verifAssert(len(r.got) == 0, "non-matching-route-gets-nothing")
 		}
 	}
+	if any {
+		verifAssert(un1 == un0, "routed-not-unroutable")
+	} else {
+		verifAssert(un1 == un0+1, "unroutable-counted-once")
+	}
+	verifCover("end")
+}
+
+// VerifC01Rewritten: routes are selected on the *rewritten* name (the name the line carries when it is
+// handed over), for a rewriter that may or may not change the name and two routes with free prefix filters.
+func VerifC01Rewritten() {
+	t := verifNewTable(m20.NoneLegacy, m20.NoneM20, false)
+	old := verifString("rw.old", 1)
+	nw := verifString("rw.new", 1)
+	verifAssume(old[0] > 0x20 && old[0] < 0x7f && old[0] != '/' && nw[0] > 0x20 && nw[0] < 0x7f)
+	rw, err := rewriter.New(old, nw, "", -1)
+	if err != nil {
+		return
+	}
+	t.AddRewriter(rw)
+	var routes []*verifCapRoute
+	for i := 0; i < 2; i++ {
+		r := &verifCapRoute{key: "r", m: verifSymMatcher("route")}
+		routes = append(routes, r)
+		t.AddRoute(r)
+	}
+	name := verifName(1 + verifChoice("namelen", 2))
+	line := append(append([]byte{}, name...), []byte(" 1 1500000000")...)
+	un0 := stats.Counter("unit=Metric.direction=unroutable").Count()
+	t.Dispatch(line)
+	rewritten := rw.Do(append([]byte{}, name...))
+	want := append(append([]byte{}, rewritten...), []byte(" 1 1500000000")...)
+	any := false
+	for _, r := range routes {
+		if r.m.Match(rewritten) {
+			any = true
+			verifAssert(len(r.got) == 1, "route-accepting-rewritten-name-gets-it-once")
+			if len(r.got) == 1 {
+				verifAssert(bytes.Equal(r.got[0], want), "route-gets-rewritten-line")
+			}
+		} else {
+			verifAssert(len(r.got) == 0, "route-rejecting-rewritten-name-gets-nothing")
+		}
+	}
+	un1 := stats.Counter("unit=Metric.direction=unroutable").Count()
 	if any {
 		verifAssert(un1 == un0, "routed-not-unroutable")
 	} else {
